@@ -78,7 +78,7 @@ class TextMeasure(Part):
 
     def strategy(self, tier):
         t = st.one_of(GC.words_text(8), GC.words_text(8), GC.mixed_text(30, newlines=True), st.sampled_from(["", " ", "\n", "a", " a ", "a\n", "\na", GC.WIDE[0] + "　" + "b"]))
-        return st.builds(lambda s, a, j: {"s": s, "A": a, "justify": j}, t, st.one_of(st.integers(0, 12), st.integers(0, 200)), st.sampled_from([None, "left", "full", "center"]))
+        return st.builds(lambda s, a, j, o: {"s": s, "A": a, "justify": j, "other": o}, t, st.one_of(st.integers(0, 12), st.integers(0, 200)), st.sampled_from([None, "left", "full", "center"]), st.one_of(st.none(), GC.mixed_text(40, newlines=True)))
 
     def check(self, spec, ctx):
         from rich.console import Console
@@ -117,8 +117,59 @@ class TextMeasure(Part):
             if wrapped != want:
                 ctx.violation("text-no-wrap-at-maximum", "C09/text/wrapped-at-maximum", "Text(%r) given its maximum %d wraps into %r, the lines are %r" % (s, full, wrapped, want))
                 return
+        # history: the same Text object gets other content of the same length (text.plain = ...) and is measured again
+        other = spec.get("other")
+        if other is not None and len(other) >= len(s) > 0:
+            s2 = other[:len(s)]
+            if s2.split() and "\t" not in s2:
+                t.plain = s2
+                m2 = sut(Measurement.get, con, t, A)
+                w2 = max(OC.width(w) for w in s2.split())
+                l2 = max(OC.width(l) for l in s2.split("\n"))
+                if (m2.minimum, m2.maximum) != (min(A, w2), min(A, l2)):
+                    ctx.violation("text-minimum", "C09/text/stale-after-edit", "Text measured (%d, %d) after its content became %r; widest word %d, widest line %d (available %d; it was %r before)" % (m2.minimum, m2.maximum, s2, w2, l2, A, s))
+                    return
+                ctx.cls("remeasured-after-edit")
         if len(lines) >= 2 and any(OC.cw(c) == 2 for c in s):
             ctx.nontrivial = True
 
 
-PARTS = [Measure(), TextMeasure()]
+class StrMeasure(Part):
+    name = "strings"
+    rule = ("plain strings (words, emoji codes such as :smile:, markup tags) measured on a sequence of 2-3 consoles that differ in their emoji / markup settings: each "
+            "measurement must equal that of the Text the same console makes of the string (render_str), whatever was measured before; non-trivial = the string has an "
+            "emoji code or a tag and the consoles differ")
+    budget = {"quick": (4, 500), "thorough": (16, 4000)}
+
+    def strategy(self, tier):
+        piece = st.sampled_from([":smile:", ":sparkles:", ":no_such_emoji:", "[bold]", "[/bold]", "word", "a", " ", "  ", "\n", GC.WIDE[0], ":", "[red]x[/red]"])
+        s = st.lists(piece, min_size=1, max_size=6).map("".join)
+        cfg = st.tuples(st.booleans(), st.booleans()).map(list)
+        return st.builds(lambda s, cfgs, a: {"s": s, "consoles": cfgs, "A": a}, s, st.lists(cfg, min_size=2, max_size=3), st.integers(1, 60))
+
+    def check(self, spec, ctx):
+        from rich.console import Console
+        from rich.measure import Measurement
+        from rich.errors import MarkupError
+
+        s = spec["s"]
+        differ = len({tuple(c) for c in spec["consoles"]}) > 1
+        for emoji, markup in spec["consoles"]:
+            con = sut(Console, file=io.StringIO(), width=80, color_system=None, emoji=emoji, markup=markup, _environ={})
+            try:
+                text = con.render_str(s)
+            except MarkupError:
+                return
+            except Exception as e:  # noqa
+                from ..core import SutError
+                raise SutError(e)
+            want = sut(Measurement.get, con, text, spec["A"])
+            got = sut(Measurement.get, con, s, spec["A"])
+            if tuple(got) != tuple(want):
+                ctx.violation("bounds", "C09/strings/depends-on-earlier-measurement", "Measurement.get(console(emoji=%r, markup=%r), %r, %d) = %r, but the Text this console makes of it measures %r" % (emoji, markup, s, spec["A"], tuple(got), tuple(want)))
+                return
+        if differ and (":" in s or "[" in s):
+            ctx.nontrivial = True
+
+
+PARTS = [Measure(), TextMeasure(), StrMeasure()]
